@@ -272,6 +272,13 @@ def merge_states(states, rets=None, base=None):
             if isinstance(v, GuardedLog) and key not in gk:
                 gk.add(key)
                 for s2 in states: s2.ghost.setdefault(key, GuardedLog())
+    # a ghost value set on some branches only is undefined (an arbitrary value) on the others
+    for s in states:
+        for key, v in s.ghost.items():
+            if key not in gk and is_z3(v):
+                gk.add(key)
+                for s2 in states:
+                    if key not in s2.ghost: s2.ghost[key] = z3.FreshConst(v.sort(), 'undefined_ghost')
     for key in gk:
         try:
             m.ghost[key] = merge_vals(conds, [s.ghost[key] for s in states])
